@@ -181,3 +181,62 @@ def _cipher_all():
 
 
 cisco_finite = Finite("cisco-type7-keystream", _cipher_all, "cisco_type7._cipher executed for every seed 0..52 and every position < 4200 (two data patterns): byte i is XORed with key[(seed + i) mod 53] of the published 53-character key")
+
+
+# ---- msdcc2 (Domain Cached Credentials v2): PBKDF2-HMAC-SHA1(MD4(MD4(pw16) + user16), user16, 10240, 16), user lower-cased AS TEXT ----
+W = "passlib/handlers/windows.py"
+MD4F = z3.Function("MD4", z3.StringSort(), z3.StringSort())
+PBK = z3.Function("pbkdf2_hmac", z3.StringSort(), z3.StringSort(), z3.StringSort(), z3.IntSort(), z3.IntSort(), z3.StringSort())
+
+
+def _dcc2_setup(it, args):
+    def md4(i, a, k):
+        v = i.to_z3(a[0])
+        return SObj(i.run.fresh("md4"), fresh=True, fields={"digest": SStub(lambda i2, a2, k2: SStr(MD4F(v), "bytes"), "digest")})
+
+    it.genv.vars["md4"] = SStub(md4, "md4")
+    return None
+
+
+def _dcc2_import(it, name):
+    from pyvc.values import SModule
+    return SModule(name, {"pbkdf2_hmac": SStub(lambda i2, a, k: SStr(PBK(i2.to_z3(a[0]), i2.to_z3(a[1]), i2.to_z3(a[2]), i2.to_z3(a[3], "int"), i2.to_z3(a[4], "int")), "bytes"), "pbkdf2_hmac")})
+
+
+def _dcc2_post(it, env):
+    old = it.spec
+    it.spec = True
+    try:
+        pw16 = it.to_z3(it.m_text_encode(env.lookup("secret"), "utf-16-le"))
+        low = it.m_text_lower(it.resolve(env.lookup("user")))
+        user16 = it.to_z3(it.m_text_encode(low, "utf-16-le"))
+    finally:
+        it.spec = old
+    tmp = MD4F(z3.Concat(MD4F(pw16), user16))
+    return it.to_z3(env.lookup("result")) == PBK(z3.StringVal("sha1"), tmp, user16, z3.IntVal(10240), z3.IntVal(16))
+
+
+def _dcc2_replay():
+    from pyvc.replay import py_replay
+    ref = r"""
+import hashlib
+from passlib.handlers.windows import msdcc2
+from passlib.crypto._md4 import md4
+def ref(pw, user):
+    u = user.lower().encode('utf-16-le')
+    return hashlib.pbkdf2_hmac('sha1', md4(md4(pw.encode('utf-16-le')).digest() + u).digest(), u, 10240, 16)
+"""
+    return py_replay(ref, "r = (msdcc2.raw(V['secret'], V['user']), ref(V['secret'], V['user']))", "exc is None and r[0] == r[1]", {"secret": "pw", "user": "Administrator"},
+                     search=lambda seed: [{"secret": "pw", "user": u} for u in ("Administrator", "Ärger", "ÉLODIE", "Łukasz", "Алекс", "user")])
+
+
+msdcc2_raw = Contract(
+    "msdcc2.raw", f"{W}::msdcc2.raw",
+    params={"cls": Obj(cls=(W, "msdcc2"), is_class=True), "secret": Str(), "user": Str()},
+    setup=_dcc2_setup,
+    globals={"__import__": _dcc2_import},
+    raises={"UnicodeEncodeError": None},
+    ensures=[("DCC2 == PBKDF2-HMAC-SHA1(MD4(MD4(utf16(pw)) || utf16(lower(user))), utf16(lower(user)), 10240, 16): the user name is folded as TEXT before it is encoded", _dcc2_post)],
+    replay=_dcc2_replay(),
+    descr="every text password and user name; MD4 / PBKDF2 / codecs abstract",
+)
